@@ -1,7 +1,8 @@
 (* C12 — property theorems only. Each is closed by [exact] of a lemma from Proofs.v (Proofs_Global.v);
    Print Assumptions is run on every Theorem by bin/check. *)
 From Coq Require Import List NArith ZArith Bool Lia ZifyN ZifyBool.
-From V Require Import C12.Model C12.Proofs C12.Proofs_Agreement C12.Proofs_Counter C12.Proofs_History C12.Proofs_Global.
+From V Require Import C12.Model C12.Proofs C12.Proofs_Agreement C12.Proofs_Counter C12.Proofs_History C12.Proofs_Global
+  C12.Proofs_Sim C12.Proofs_SimB C12.Proofs_Calls C12.Proofs_WalReplay C12.Proofs_CfgEq C12.Proofs_GlobalX.
 Import ListNotations.
 Open Scope N_scope.
 
@@ -239,4 +240,337 @@ Proof.
   split.
   - apply sched_reach; [apply gr_init|vm_compute; reflexivity].
   - unfold decided. vm_compute. tauto.
+Qed.
+
+(* ====================================================================================================
+   ProcessWAL and ProcessSync (process.go), Model.process_wal / process_sync / call_step
+   ==================================================================================================== *)
+
+(* ---------- both are compositions of the five modelled calls: proved about the transcription ---------- *)
+(* ProcessWAL(entry) is the Process* call of the entry's kind; a Start entry is ProcessStart(0) whatever
+   height it carries.  It filters nothing (the WriteWAL actions are returned again; the driver skips them). *)
+Theorem C12_process_wal_is_the_call : forall c s e, process_wal c s e = step c s (wentry_input e).
+Proof. exact process_wal_step. Qed.
+
+(* ProcessSync(proposal, precommits) = ProcessProposal, then ProcessPrecommit for every precommit in order, on
+   the running state; the returned list is the concatenation.  No check of its own. *)
+Theorem C12_process_sync_is_composition : forall c s p pcs,
+  process_sync c s p pcs =
+  (fst (run c s (IProposal p :: map IPrecommit pcs)), all_actions (snd (run c s (IProposal p :: map IPrecommit pcs)))).
+Proof. exact process_sync_spec. Qed.
+
+(* a sequence of calls of all seven methods = the sequence of their inner calls *)
+Theorem C12_calls_are_compositions : forall c xs s,
+  fst (run_calls c s xs) = fst (run c s (flat_map call_inputs xs)) /\
+  calls_actions (snd (run_calls c s xs)) = all_actions (snd (run c s (flat_map call_inputs xs))) /\
+  calls_events c s xs = snd (run c s (flat_map call_inputs xs)).
+Proof. exact run_calls_spec. Qed.
+
+Theorem C12_loop_terminates_calls : forall c s x, snd (call_step_x c s x) = false.
+Proof. exact call_fuel_enough. Qed.
+
+(* ---------- (b) local safety for call sequences that contain ProcessWAL / ProcessSync ---------- *)
+(* Calling discipline (ok_call): as before for the five plain calls; ProcessWAL of a Timeout entry only while
+   the height is started (in the log a height's Start entry precedes its timeouts), a Start entry is replayed
+   with round 0; ProcessSync needs NOTHING (any proposal, any precommits, any state): it only delivers
+   messages.  The audited events are the inner calls with what each returned (calls_events); the harness
+   gets them from the returned concatenation by C12_audited_events_exact. *)
+Theorem C12_local_safety_calls : forall c h xs,
+  disciplined_calls c (init_state h) xs = true -> audit c h (calls_events c (init_state h) xs) = [].
+Proof. exact local_safety_calls. Qed.
+
+Theorem C12_no_double_vote_calls : forall c h xs,
+  disciplined_calls c (init_state h) xs = true ->
+  no_double_vote (calls_actions (snd (run_calls c (init_state h) xs))) = true.
+Proof. exact no_double_vote_calls. Qed.
+
+Theorem C12_step_monotone_calls : forall c h0 s x,
+  reach_calls c h0 s -> ok_call s x = true -> spos_le s (fst (call_step c s x)).
+Proof. exact step_monotone_calls. Qed.
+
+(* the per-rule theorems (C12_prevote_respects_lock, C12_timeout_votes_nil, C12_precommit_needs_polka,
+   C12_commit_needs_quorum_and_valid_proposal_from_proposer) are statements about apply_rule / select /
+   on_timeout in ANY state; ProcessWAL and ProcessSync reach the rules only through step_x
+   (C12_process_wal_is_the_call, C12_process_sync_is_composition), so they hold for them unchanged. *)
+
+Theorem C12_audited_events_exact : forall c s x,
+  call_impl_events c s x (snd (call_step c s x)) = call_events c s x.
+Proof. exact call_impl_events_exact. Qed.
+
+(* validator 2 of 4 is started from its log and catches up by ProcessSync: it commits value 1 and starts height 1 *)
+Definition ex_calls : list call :=
+  [KWal (WStart 0);
+   KSync (mkP 0 0 0 (-1) 1) [mkV 0 0 0 (Some 1); mkV 0 0 1 (Some 1); mkV 0 0 3 (Some 1); mkV 0 0 3 (Some 1)];
+   KIn (IStart 0); KWal (WTimeout SPropose 1 0); KSync (mkP 1 0 0 (-1) 2) []].
+Example ex_calls_disciplined :
+  disciplined_calls (ex_cfg 2) (init_state 0) ex_calls = true /\
+  existsb (fun a => match a with ACommit p => p_val p =? 1 | _ => false end)
+          (calls_actions (snd (run_calls (ex_cfg 2) (init_state 0) ex_calls))) = true /\
+  s_h (fst (run_calls (ex_cfg 2) (init_state 0) ex_calls)) = 1 /\
+  votes_of Prevote (calls_actions (snd (run_calls (ex_cfg 2) (init_state 0) ex_calls))) = [mkV 0 0 2 (Some 1); mkV 1 0 2 None].
+Proof. vm_compute. auto. Qed.
+
+(* ---------- replaying the log a run wrote reaches the same state ---------- *)
+(* "The same state" = st_sim: every scalar field equal (height, round, step, lock, valid value/round, the three
+   flags, isHeightStarted, lastTriggerSync, lastQuorum, number of Value() calls) and the vote counters hold the
+   same round data in every cell (height >= current, round).  st_sim_b is its decision procedure (what the
+   oracle evaluates); similar states return equal actions and stay similar under every call. *)
+Theorem C12_st_sim_b_decides : forall s s', st_sim_b s s' = true <-> st_sim s s'.
+Proof. exact st_sim_b_spec. Qed.
+
+Theorem C12_calls_respect_st_sim : forall c, (forall h, 0 < q_of (c_total c h)) -> forall s s' i,
+  st_sim s s' -> st_sim (fst (step c s i)) (fst (step c s' i)) /\ snd (step c s i) = snd (step c s' i).
+Proof. exact step_sim_eq. Qed.
+
+(* C12_wal_replay_same_state.  c is the environment of the live process, c' the one of the process that
+   replays (restarted: another Application object).  Hypotheses, all explicit:
+     cfg_same c c'        the replay's Application.Value() answers at every CALL INDEX k what the live one answered
+                          (cs_value: c_value_at c k = c_value_at c' k; the state counts the calls, s_nval),
+                          Application.Valid answers the same on every value (cs_valid), Hash, the Validators
+                          functions and the own address are the same (pointwise; no extensionality axiom);
+                          C12_wal_replay_value_needed shows it is needed;
+     quorum > 0           total voting power >= 1 at every height (an empty round entry, as a rejected message
+                          creates it, reaches a quorum of 0: C12_wal_replay_quorum_positive_needed);
+     wal_disciplined      the log discipline (Model.wal_ok_input, executable; four clauses, each shown necessary).
+   Then for EVERY such input sequence from the initial state of a height: feeding the entries the run logged (its
+   AWalStart / AWalProposal / AWalPrevote / AWalPrecommit / AWalTimeout actions, in order) through ProcessWAL into a
+   fresh state machine reaches the same state as the run (st_sim), and the replay returns exactly the actions the
+   run returned (so it re-broadcasts the same votes). *)
+Theorem C12_wal_replay_same_state : forall c c', cfg_same c c' -> (forall h, 0 < q_of (c_total c h)) -> forall h ins,
+  wal_disciplined c (init_state h) ins = true ->
+  st_sim (fst (replay_wal c' (init_state h) (wal_written (snd (run c (init_state h) ins)))))
+         (fst (run c (init_state h) ins)) /\
+  replay_actions (snd (replay_wal c' (init_state h) (wal_written (snd (run c (init_state h) ins))))) =
+  all_actions (snd (run c (init_state h) ins)).
+Proof. exact wal_replay_two_env. Qed.
+
+(* an environment that is the same only pointwise *)
+Example ex_cfg_same : cfg_same (ex_cfg 0)
+  (mkCfg 0 (fun h => 2 + 2) (fun h a => if 4 <=? a then 0 else 1) (fun _ r => Z.to_N (r mod 4))
+         (fun v => negb (v =? 9)) (fun v => v + 0) (fun k => k + 1)).
+Proof.
+  constructor; unfold ex_cfg; cbn [c_self c_total c_power c_proposer c_valid c_vid c_value_at]; intros; try reflexivity; try lia.
+  destruct (a <? 4) eqn:A, (4 <=? a) eqn:B; try reflexivity; lia.
+Qed.
+
+(* the same environment on both sides *)
+Theorem C12_wal_replay_same_state_one_env : forall c, (forall h, 0 < q_of (c_total c h)) -> forall h ins,
+  wal_disciplined c (init_state h) ins = true ->
+  st_sim (fst (replay_wal c (init_state h) (wal_written (snd (run c (init_state h) ins)))))
+         (fst (run c (init_state h) ins)) /\
+  replay_actions (snd (replay_wal c (init_state h) (wal_written (snd (run c (init_state h) ins))))) =
+  all_actions (snd (run c (init_state h) ins)).
+Proof. exact wal_replay_same_state_lemma. Qed.
+
+(* the same as one boolean (evaluated by the oracle on every generated run, and by the harness on the real
+   state machine: live instance vs a second instance fed through ProcessWAL) *)
+Theorem C12_wal_replay_same_state_b : forall c, (forall h, 0 < q_of (c_total c h)) -> forall h ins,
+  wal_disciplined c (init_state h) ins = true -> wal_replay_same c (init_state h) ins = true.
+Proof. exact wal_replay_same_b_lemma. Qed.
+
+(* from any state whose vote counter is well-formed (swf: reachable counters are, Proofs_WalReplay.step_wf),
+   e.g. the state right after a Commit, whose counter already holds the buffered messages of the new height *)
+Theorem C12_wal_replay_same_state_from : forall c, (forall h, 0 < q_of (c_total c h)) -> forall s0 ins,
+  swf s0 -> wal_disciplined c s0 ins = true ->
+  st_sim (fst (replay_wal c s0 (wal_written (snd (run c s0 ins))))) (fst (run c s0 ins)) /\
+  replay_actions (snd (replay_wal c s0 (wal_written (snd (run c s0 ins))))) = all_actions (snd (run c s0 ins)).
+Proof. exact wal_replay_same_state_from. Qed.
+
+Theorem C12_reachable_counters_well_formed : forall c ins h, swf (fst (run c (init_state h) ins)).
+Proof. exact run_wf. Qed.
+
+(* the log discipline implies the calling discipline of the local safety theorems *)
+Theorem C12_wal_discipline_is_a_discipline : forall c ins s,
+  wal_disciplined c s ins = true -> disciplined c s ins = true.
+Proof. exact wal_disciplined_disciplined. Qed.
+
+(* non-vacuity: the committing history of ex_disciplined keeps the log discipline; 6 entries are logged *)
+Example ex_wal_disciplined :
+  wal_disciplined (ex_cfg 0) (init_state 0) ex_ins = true /\ wal_replay_same (ex_cfg 0) (init_state 0) ex_ins = true /\
+  length (wal_written (snd (run (ex_cfg 0) (init_state 0) ex_ins))) = 6%nat /\
+  (forall h, 0 < q_of (c_total (ex_cfg 0) h)).
+Proof. split; [vm_compute; reflexivity|]. split; [vm_compute; reflexivity|]. split; [vm_compute; reflexivity|].
+  intro h. vm_compute. reflexivity. Qed.
+
+(* ---- the statement for ALL runs the driver can produce is false on the faithful model: two witnesses ---- *)
+(* (1) A precommit that completes a quorum for a FUTURE height is added to the counter, moves lastTriggerSync /
+   lastQuorum and returns only TriggerSync: it is not logged (process.go returns before processMessage).
+   Validator 3 of 4 at height 1 (started, ProcessStart(0) first, every timeout live: nothing the driver could
+   not do): three precommits for (height 2, round 0, id 5); the third is lost by the replay. *)
+Definition trig_ins : list input :=
+  [IStart 0; IPrecommit (mkV 2 0 0 (Some 5)); IPrecommit (mkV 2 0 1 (Some 5)); IPrecommit (mkV 2 0 2 (Some 5))].
+Definition replayed (c : cfg) (h : N) (ins : list input) : state :=
+  fst (replay_wal c (init_state h) (wal_written (snd (run c (init_state h) ins)))).
+Theorem C12_wal_replay_same_state_refuted : exists c h ins,
+  (forall h, 0 < q_of (c_total c h)) /\ disciplined c (init_state h) ins = true /\
+  wal_replay_same c (init_state h) ins = false /\
+  r_count_vote (vcell (s_vc (fst (run c (init_state h) ins))) 2 0) Precommit (Some 5) = 3 /\
+  r_count_vote (vcell (s_vc (replayed c h ins)) 2 0) Precommit (Some 5) = 2 /\
+  s_lts (fst (run c (init_state h) ins)) = 2 /\ s_lts (replayed c h ins) = 0.
+Proof.
+  exists (ex_cfg 3), 1, trig_ins. split; [intro h; vm_compute; reflexivity|]. vm_compute. repeat split; reflexivity.
+Qed.
+Example C12_wal_replay_trigger_sync_needed :
+  wal_disciplined (ex_cfg 3) (init_state 1) trig_ins = false /\
+  wal_disciplined (ex_cfg 3) (init_state 1) (firstn 3 trig_ins) = true.
+Proof. vm_compute. auto. Qed.
+
+(* (2) A stale timeout (it matches nothing, so it is not logged) still runs processLoop, and a rule can be
+   pending: here the commit of the round-1 proposal (its quorum was completed by the validator's own precommit
+   while processLoop looked at round 0).  The Commit, and the move to height 2, are lost by the replay.
+   (C13's finding recovery:stale-timeout-commits-unlogged, at the level of the state machine.) *)
+Definition stale_ins : list input :=
+  [IStart 0; ITimeout SPropose 1 0; IPrevote (mkV 1 0 0 (Some 11)); IPrevote (mkV 1 0 1 (Some 11));
+   IPrecommit (mkV 1 0 0 None); IPrecommit (mkV 1 0 1 None); IPrecommit (mkV 1 0 2 None);
+   ITimeout SPrecommit 1 0; IProposal (mkP 1 1 1 0 11);
+   IPrevote (mkV 1 1 0 (Some 11)); IPrevote (mkV 1 1 1 (Some 11));
+   IPrecommit (mkV 1 1 0 (Some 11)); IPrecommit (mkV 1 1 1 (Some 11));
+   IPrevote (mkV 1 0 2 (Some 11))].
+Theorem C12_wal_replay_stale_timeout_refuted :
+  disciplined (ex_cfg 3) (init_state 1) (stale_ins ++ [ITimeout SPropose 1 1]) = true /\
+  wal_disciplined (ex_cfg 3) (init_state 1) stale_ins = true /\
+  wal_disciplined (ex_cfg 3) (init_state 1) (stale_ins ++ [ITimeout SPropose 1 1]) = false /\
+  snd (step (ex_cfg 3) (fst (run (ex_cfg 3) (init_state 1) stale_ins)) (ITimeout SPropose 1 1)) = [ACommit (mkP 1 1 1 0 11)] /\
+  wal_replay_same (ex_cfg 3) (init_state 1) (stale_ins ++ [ITimeout SPropose 1 1]) = false /\
+  s_h (fst (run (ex_cfg 3) (init_state 1) (stale_ins ++ [ITimeout SPropose 1 1]))) = 2 /\
+  s_h (replayed (ex_cfg 3) 1 (stale_ins ++ [ITimeout SPropose 1 1])) = 1.
+Proof. vm_compute. repeat split; reflexivity. Qed.
+
+(* ---- the remaining clauses of the discipline and the remaining hypotheses are not decorative ---- *)
+(* ProcessStart(1): the Start entry is replayed as ProcessStart(0) *)
+Example C12_wal_replay_start_round_needed :
+  disciplined (ex_cfg 2) (init_state 0) [IStart 1] = true /\ wal_disciplined (ex_cfg 2) (init_state 0) [IStart 1] = false /\
+  wal_replay_same (ex_cfg 2) (init_state 0) [IStart 1] = false /\
+  s_r (fst (run (ex_cfg 2) (init_state 0) [IStart 1])) = 1%Z /\ s_r (replayed (ex_cfg 2) 0 [IStart 1]) = 0%Z.
+Proof. vm_compute. repeat split; reflexivity. Qed.
+
+(* a message handed over before ProcessStart is counted but not logged *)
+Example C12_wal_replay_started_needed :
+  disciplined (ex_cfg 2) (init_state 0) [IPrevote (mkV 0 0 1 (Some 1)); IStart 0] = true /\
+  wal_disciplined (ex_cfg 2) (init_state 0) [IPrevote (mkV 0 0 1 (Some 1)); IStart 0] = false /\
+  wal_replay_same (ex_cfg 2) (init_state 0) [IPrevote (mkV 0 0 1 (Some 1)); IStart 0] = false.
+Proof. vm_compute. repeat split; reflexivity. Qed.
+
+(* literally equal states is too much to ask: a proposal from the wrong sender is rejected and not logged, but
+   getRoundData has created an (empty) entry for its round; the states are similar, not equal *)
+Definition reject_ins : list input := [IStart 0; IProposal (mkP 0 5 3 (-1) 1); IPrevote (mkV 0 0 0 (Some 1))].
+Example C12_wal_replay_exact_equality_refuted :
+  wal_disciplined (ex_cfg 2) (init_state 0) reject_ins = true /\
+  wal_replay_same (ex_cfg 2) (init_state 0) reject_ins = true /\
+  map fst (vc_rounds (s_vc (fst (run (ex_cfg 2) (init_state 0) reject_ins)))) = [5%Z; 0%Z] /\
+  map fst (vc_rounds (s_vc (replayed (ex_cfg 2) 0 reject_ins))) = [0%Z] /\
+  replayed (ex_cfg 2) 0 reject_ins <> fst (run (ex_cfg 2) (init_state 0) reject_ins).
+Proof.
+  split; [vm_compute; reflexivity|]. split; [vm_compute; reflexivity|]. split; [vm_compute; reflexivity|].
+  split; [vm_compute; reflexivity|]. intro E. apply (f_equal (fun s => length (vc_rounds (s_vc s)))) in E.
+  vm_compute in E. discriminate.
+Qed.
+
+(* total voting power 0: quorum 0; the empty entry of a rejected proposal then "has a quorum of precommits" *)
+Definition zero_cfg : cfg :=
+  mkCfg 0 (fun _ => 0) (fun _ _ => 0) (fun _ _ => 1) (fun _ => true) (fun v => v) (fun _ => 0).
+Definition zero_ins : list input := [IStart 0; IProposal (mkP 1 0 5 (-1) 7); IPrevote (mkV 1 3 1 None)].
+Example C12_wal_replay_quorum_positive_needed :
+  wal_disciplined zero_cfg (init_state 1) zero_ins = true /\ q_of (c_total zero_cfg 1) = 0 /\
+  wal_replay_same zero_cfg (init_state 1) zero_ins = false /\
+  In (ASchedule SPrecommit 1 0) (all_actions (snd (run zero_cfg (init_state 1) zero_ins))) /\
+  ~ In (ASchedule SPrecommit 1 0)
+       (replay_actions (snd (replay_wal zero_cfg (init_state 1) (wal_written (snd (run zero_cfg (init_state 1) zero_ins)))))).
+Proof.
+  split; [vm_compute; reflexivity|]. split; [vm_compute; reflexivity|]. split; [vm_compute; reflexivity|].
+  split; [vm_compute; auto 10|]. vm_compute. intros [H|[H|[H|[]]]]; discriminate.
+Qed.
+
+(* cs_value of cfg_same is needed: Value() must answer the same at the same call index in the replay.  The
+   proposer of round 0 replays its Start entry against an application that answers 5 instead of 1 (everything
+   else the same): another proposal, another prevote for the same height and round *)
+Definition other_app (c : cfg) : cfg :=
+  mkCfg (c_self c) (c_total c) (c_power c) (c_proposer c) (c_valid c) (c_vid c) (fun k => 5 + k).
+Example C12_wal_replay_value_needed :
+  wal_disciplined (ex_cfg 0) (init_state 0) [IStart 0] = true /\
+  votes_of Prevote (all_actions (snd (run (ex_cfg 0) (init_state 0) [IStart 0]))) = [mkV 0 0 0 (Some 1)] /\
+  votes_of Prevote (replay_actions (snd (replay_wal (other_app (ex_cfg 0)) (init_state 0)
+                      (wal_written (snd (run (ex_cfg 0) (init_state 0) [IStart 0])))))) = [mkV 0 0 0 (Some 5)] /\
+  st_sim_b (fst (replay_wal (other_app (ex_cfg 0)) (init_state 0) (wal_written (snd (run (ex_cfg 0) (init_state 0) [IStart 0])))))
+           (fst (run (ex_cfg 0) (init_state 0) [IStart 0])) = false.
+Proof. vm_compute. repeat split; reflexivity. Qed.
+
+(* ---------- (c) agreement and validity when correct validators also take ProcessWAL / ProcessSync steps ---------- *)
+(* greach_x (Proofs_GlobalX.v): as greach, but a correct validator may make ANY of the seven calls.  ProcessSync
+   checks nothing itself - height, round, sender and quorum are checked by ProcessProposal / ProcessPrecommit,
+   i.e. the vote counter takes every precommit at its sender's voting power - so it trusts its caller for one
+   thing: that the messages are real.  Hypothesis of gx_call, for every call: each message handed over was sent
+   (it is in the set of messages sent so far: broadcast by a correct validator, or carrying a faulty address).
+   For ProcessWAL this holds because the log only holds received messages; for ProcessSync it is a requirement on
+   the sync source.  C12_sync_caller_needed: without it agreement fails. *)
+Theorem C12_agreement_with_sync : forall total power proposer valid vid va (vals : N -> list addr) (byz : addr -> bool) h0,
+  (forall h, NoDup (vals h) /\ total h = pw_sum (power h) (fun _ => true) (vals h) /\
+             forall a, power h a <> 0 -> In a (vals h)) ->
+  (forall h, 1 <= total h < W / 2) ->
+  (forall h, pw_sum (power h) byz (vals h) <= f_of (total h)) ->
+  forall g p1 p2 c1 c2,
+    greach_x total power proposer valid vid va byz h0 g -> byz p1 = false -> byz p2 = false ->
+    decided g p1 c1 -> decided g p2 c2 -> p_h c1 = p_h c2 -> vid (p_val c1) = vid (p_val c2).
+Proof. exact agreement_reachable_x. Qed.
+
+Theorem C12_validity_with_sync : forall total power proposer valid vid va (vals : N -> list addr) (byz : addr -> bool) h0,
+  (forall h, NoDup (vals h) /\ total h = pw_sum (power h) (fun _ => true) (vals h) /\
+             forall a, power h a <> 0 -> In a (vals h)) ->
+  forall g p c1,
+    greach_x total power proposer valid vid va byz h0 g -> byz p = false -> decided g p c1 ->
+    valid (p_val c1) = true /\ p_from c1 = proposer (p_h c1) (p_r c1).
+Proof. exact validity_reachable_x. Qed.
+
+(* the system with seven calls contains the system of C12_agreement *)
+Theorem C12_greach_x_extends_greach : forall total power proposer valid vid va (byz : addr -> bool) h0 g,
+  greach total power proposer valid vid va byz h0 g -> greach_x total power proposer valid vid va byz h0 g.
+Proof. exact greach_greach_x. Qed.
+
+(* non-vacuity: in ex_g (validators 0 and 1 decided value 1) the lagging validator 2 is handed, by ProcessSync,
+   the proposal and the precommits that were really sent (the faulty validator 3 adds its own): it decides
+   value 1 too, and its next height is started from its log *)
+Definition ex_sync_sched : list xcmd :=
+  [XByz (MVote Precommit (mkV 0 0 3 (Some 1)));
+   XCall 2 (KSync (mkP 0 0 0 (-1) 1) [mkV 0 0 0 (Some 1); mkV 0 0 1 (Some 1); mkV 0 0 3 (Some 1)]);
+   XCall 2 (KWal (WStart 1))].
+Definition ex_gx : gstate :=
+  xsched_exec (fun _ => 4) (fun _ a => if a <? 4 then 1 else 0) (fun _ r => Z.to_N (r mod 4)) (fun v => negb (v =? 9))
+              (fun v => v) (fun p _ => 1 + p) ex_g ex_sync_sched.
+Example ex_reach_x_sync_decides :
+  greach_x (fun _ => 4) (fun _ a => if a <? 4 then 1 else 0) (fun _ r => Z.to_N (r mod 4)) (fun v => negb (v =? 9))
+           (fun v => v) (fun p _ => 1 + p) ex_byz 0 ex_gx /\
+  decided ex_gx 2 (mkP 0 0 0 (-1) 1) /\ s_h (g_st ex_gx 2) = 1 /\ s_started (g_st ex_gx 2) = true.
+Proof.
+  split.
+  - apply xsched_reach; [apply greach_greach_x; exact (proj1 ex_reach_decides)|vm_compute; reflexivity].
+  - unfold decided. vm_compute. repeat split; auto 20.
+Qed.
+
+(* The hypothesis on the caller of ProcessSync is needed.  Same state ex_g; the faulty validator 3 (proposer of
+   round 3) sends a proposal of value 2 for round 3 and its precommit for it; then validator 2 - which has
+   itself precommitted value 1 in round 0 - is handed by ProcessSync that proposal, that precommit, and two
+   precommits for value 2 "from" the correct validators 0 and 1, which they never sent.  Every other premise of
+   gx_call holds.  Validator 2 decides value 2 in height 0; validators 0 and 1 decided value 1. *)
+Definition forged_prop : proposal := mkP 0 3 3 (-1) 2.
+Definition forged_sync : call :=
+  KSync forged_prop [mkV 0 3 3 (Some 2); mkV 0 3 0 (Some 2); mkV 0 3 1 (Some 2)].
+Definition ex_g_pre : gstate :=
+  xsched_exec (fun _ => 4) (fun _ a => if a <? 4 then 1 else 0) (fun _ r => Z.to_N (r mod 4)) (fun v => negb (v =? 9))
+              (fun v => v) (fun p _ => 1 + p) ex_g
+              [XByz (MProp forged_prop); XByz (MVote Precommit (mkV 0 3 3 (Some 2)))].
+Definition ex_g_forged : gstate :=
+  g_call (fun _ => 4) (fun _ a => if a <? 4 then 1 else 0) (fun _ r => Z.to_N (r mod 4)) (fun v => negb (v =? 9))
+         (fun v => v) (fun p _ => 1 + p) ex_g_pre 2 forged_sync.
+Example C12_sync_caller_needed :
+  greach_x (fun _ => 4) (fun _ a => if a <? 4 then 1 else 0) (fun _ r => Z.to_N (r mod 4)) (fun v => negb (v =? 9))
+           (fun v => v) (fun p _ => 1 + p) ex_byz 0 ex_g_pre /\
+  ex_byz 2 = false /\ ok_call (g_st ex_g_pre 2) forged_sync = true /\
+  map (fun m => in_pool m (g_msgs ex_g_pre)) (call_msgs forged_sync) = [true; true; false; false] /\
+  ex_byz 0 = false /\ ex_byz 1 = false /\
+  decided ex_g_forged 0 (mkP 0 0 0 (-1) 1) /\ decided ex_g_forged 2 forged_prop /\
+  p_h (mkP 0 0 0 (-1) 1) = p_h forged_prop /\ p_val (mkP 0 0 0 (-1) 1) <> p_val forged_prop.
+Proof.
+  split.
+  - apply xsched_reach; [apply greach_greach_x; exact (proj1 ex_reach_decides)|vm_compute; reflexivity].
+  - unfold decided. vm_compute. repeat split; auto 30. intro H; discriminate.
 Qed.
